@@ -72,7 +72,7 @@ class ArgsFormatBuilder(object):
         return False
 
     def get_command_names(self, include_base=True):  # type: (bool) -> List[CommandName]
-        command_names = self._command_names
+        command_names = list(self._command_names)
 
         if include_base and self._base_format:
             command_names = self._base_format.get_command_names() + command_names
